@@ -198,8 +198,12 @@ static void _pth_interval(double* am,
     a = *bufl;
 
     if (il == jr) {
-      *am=a;
-      *aM=a;
+      /* a single candidate is left: it is the order statistic that
+         has not been found yet; keep the one already found */
+      if (stop1 == 0)
+	*am=a;
+      if (stop2 == 0)
+	*aM=a;
       return;
     }
 
